@@ -74,3 +74,61 @@ Print Assumptions T12_result_names.
 
 Example T12_guards_nonvacuous : wf_tmpl R1_t = true /\ linear R1_t = false.
 Proof. exact wf_example_repeated_names. Qed.
+
+(* T12.6 search.  ast.walk (BFS with the height as fuel) enumerates exactly the descendants *)
+Theorem T12_6_walk_all_subnodes : forall root n, In n (ast_walk root) <-> subnode n root.
+Proof. exact ast_walk_spec. Qed.
+Print Assumptions T12_6_walk_all_subnodes.
+
+(* expression / statement patterns: every reported occurrence is a sub-node of that class that
+   matches, and every matching sub-node is reported (once per node identity) *)
+Theorem T12_6_search_sound :
+  forall root tg fs n r,
+    In (n, r) (walk_wildcard root (TNode tg fs)) ->
+    subnode n root /\ vtag n = tg /\ match_tmpl (TNode tg fs) n = Some r.
+Proof. exact walk_wildcard_node_sound. Qed.
+Print Assumptions T12_6_search_sound.
+
+Theorem T12_6_search_complete :
+  forall root tg fs n r,
+    subnode n root -> match_tmpl (TNode tg fs) n = Some r ->
+    exists n' r', In (n', r') (walk_wildcard root (TNode tg fs)) /\
+                  ((n', r') = (n, r) \/ same_node n n' = true).
+Proof. exact walk_wildcard_node_complete. Qed.
+Print Assumptions T12_6_search_complete.
+
+(* ... but a pattern that is a single wildcard is never found (known finding F12-3) *)
+Theorem R12_6_bare_wildcard_never_found : forall root n c t, walk_wildcard root (TWild n c t) = [].
+Proof. exact walk_wildcard_bare_wildcard. Qed.
+Print Assumptions R12_6_bare_wildcard_never_found.
+
+(* statement-sequence patterns: exactly the windows (contiguous runs of the pattern's length) of the
+   body / orelse of the walked scopes on which the element matches merge consistently *)
+Theorem T12_6_windows :
+  forall k (l w : list value), 1 <= k ->
+    (In w (windows k l) <-> List.length w = k /\ exists pre post, l = pre ++ w ++ post).
+Proof. exact (@windows_spec value). Qed.
+Print Assumptions T12_6_windows.
+
+Theorem T12_6_sequence_search :
+  forall order root ts w b,
+    In (w, b) (walk_sequence order root ts) <->
+    exists sc body rs,
+      In sc (map fst (walk_wildcard root (TOr (map (fun g => TType [g]) order)))) /\
+      In body (bodies sc) /\ In w (windows (List.length ts) body) /\
+      zip_match ts w = Some rs /\ merge_all [] (map Some rs) = Some b.
+Proof. exact walk_sequence_spec. Qed.
+Print Assumptions T12_6_sequence_search.
+
+Theorem T12_6_sequence_scopes :
+  forall order root sc,
+    In sc (map fst (walk_wildcard root (TOr (map (fun g => TType [g]) order)))) ->
+    subnode sc root /\ In (vtag sc) order.
+Proof. exact walk_sequence_scopes. Qed.
+Print Assumptions T12_6_sequence_scopes.
+
+(* the searched block kinds, re-checked against constants.AST_TYPES_WITH_BODY/ORELSE of /repo on
+   every run: modules, definitions, if/for/while/with -- nothing from try/finally/match *)
+Theorem T12_6_body_kinds : forall g, In g body_kinds <-> In g stated_kinds.
+Proof. exact body_kinds_spec. Qed.
+Print Assumptions T12_6_body_kinds.
